@@ -149,6 +149,13 @@ func (c *Conversation) retransmit() ([]messageWithHeader, error) {
 
 	c.resend.startRetransmitting()
 	defer c.resend.endRetransmitting()
+	// the texts have been taken off the list: whatever happens to them here, they are erased afterwards
+	// (as Send erases what it replaces and End what it forgets)
+	defer func() {
+		for _, msgx := range msgs {
+			wipeBytes(msgx.m)
+		}
+	}()
 
 	for _, msgx := range msgs {
 		msg := msgx.m
@@ -156,6 +163,9 @@ func (c *Conversation) retransmit() ([]messageWithHeader, error) {
 			msg = c.resendMessageTransformer()(msg)
 		}
 		dataMsg, _, err := c.genDataMsg(msg)
+		if resending {
+			wipeBytes(msg) // the marked copy made for this transmission
+		}
 		if err != nil {
 			return nil, err
 		}
